@@ -70,7 +70,7 @@ Record ext_case := {
 Definition check_ext (c : ext_case) : bool :=
   let cv := fun _ : jv => ec_valid c in
   res_eqb str_eqb (to_json cv (ec_content c)) (ec_to_json c)
-  && str_eqb (to_str (ec_content c)) (ec_str c)
+  && res_eqb str_eqb (to_str (ec_content c)) (Ok (ec_str c))
   && match ec_to_json c with
      | Ok t =>
          wfb (ec_content c)   (* a serialisable content lies in the domain of the round-trip theorems *)
@@ -124,7 +124,7 @@ Fixpoint check_points (s : hstate) (ps : list save_point) : bool :=
     let (s3, e3) := hstep cv ident_store s2 HLoad in
     wfb (sp_content p)
     && res_eqb str_eqb (to_json cv (sp_content p)) (sp_to_json p)
-    && str_eqb (to_str (sp_content p)) (sp_str p)
+    && res_eqb str_eqb (to_str (sp_content p)) (Ok (sp_str p))
     && hevent_eqb e2 (match sp_file p with Some b => EvSaved b | None => EvRefused ECrash end)
     && hevent_eqb e3 (EvLoaded (sp_loaded p))
     && check_points s3 r
